@@ -2,7 +2,8 @@
    Statements only; proofs are in Proofs/SaveP.v (save_results) and Proofs/SavedCfgP.v
    (configuration flow of pandora.main). *)
 From Coq Require Import ZArith QArith List Bool String.
-From Pandora Require Import Model.Save Spec.Save Proofs.SaveP Gen.SavePlan.
+From Pandora Require Import Model.Json Model.Checker Model.Pipeline Model.Save Model.SavedCfg Spec.Save
+  Proofs.CheckerP Proofs.SaveP Proofs.SavedCfgP Gen.SavePlan Gen.Schemas.
 Import ListNotations.
 
 (* Per-run obligations on the data regenerated from /repo: the write_data_array calls of
@@ -85,8 +86,119 @@ Example C19_files_example :
   end.
 Proof. vm_compute. split; reflexivity. Qed.
 
+(* ------------------------------------------------------------------------------------------
+   The saved configuration (second sentence of the property). *)
+
+Definition gen_defs : input_defs :=
+  mkInputDefs input_configuration_schema_left input_configuration_schema_right
+              input_configuration_schema_integer_disparity_left input_configuration_schema_integer_disparity_right
+              input_configuration_schema_left_disparity_grids_right_none_left
+              input_configuration_schema_left_disparity_grids_right_none_right
+              input_configuration_schema_left_disparity_grids_right_grids_left
+              input_configuration_schema_left_disparity_grids_right_grids_right
+              default_short_configuration_input.
+
+(* per-run obligation on the regenerated step classes (the one C05 uses) *)
+Theorem C19_classes_wf : classes_wf classes = true.
+Proof. vm_compute. reflexivity. Qed.
+
+Section Config.
+  (* file-system oracles: ANY answer of "this path opens", of the grid tests, of check_images,
+     any band names *)
+  Variable orc : string -> jv -> option bool.
+  Variable grid_ok : jv -> jv -> bool.
+  Variable images_ok : dict -> bool.
+  Variable bands_of : jv -> list jv.
+
+  Notation check_conf := (full_check gen_defs orc grid_ok images_ok bands_of classes interpolation_methods).
+  Notation main := (main_saved gen_defs orc grid_ok images_ok bands_of classes interpolation_methods).
+  Notation guard := (replay_guard gen_defs orc grid_ok images_ok bands_of classes interpolation_methods).
+
+  (* INPUT SECTION: an accepted input section that update_conf(defaults, .) leaves unchanged is
+     accepted again and returned unchanged (same oracle answers) *)
+  Theorem C19_input_section_replays : forall u c,
+    input_check gen_defs orc grid_ok images_ok u = Some c ->
+    update_conf (i_default gen_defs) c = Some c ->
+    input_check gen_defs orc grid_ok images_ok c = Some c.
+  Proof. exact (input_check_fix gen_defs orc grid_ok images_ok). Qed.
+
+  (* CHECKED CONFIGURATION = FIXPOINT.  For every user configuration that check_conf accepts
+     (any pipeline of the built-in classes, suffixed steps, "NaN"/nan invalid_disparity, interval
+     or grids) under the guard: check_conf of the completed configuration returns it unchanged
+     (input section and pipeline section: C05's class-level idempotence lifted through
+     update_conf, the registry dispatch, the band / interpolation / grid rules and the second
+     round with the images exchanged), and a "margins" entry of any value is ignored. *)
+  Theorem C19_checked_cfg_fixpoint : forall user cfg,
+    check_conf user = Some cfg -> guard user = true ->
+    check_conf cfg = Some cfg /\ forall m, check_conf (set_key "margins" m cfg) = Some cfg.
+  Proof.
+    exact (full_check_fixpoint gen_defs orc grid_ok images_ok bands_of classes interpolation_methods C19_classes_wf).
+  Qed.
+
+  (* THE SAVED CONFIGURATION REPLAYS (partial).  Full statement, kept visible: *)
+  Definition C19_saved_cfg_replays_full : Prop := forall user m saved,
+    main m user = Some saved ->
+    exists cfg, check_conf user = Some cfg
+                /\ saved = set_key "margins" m (run_rewrites cfg)       (* completed configuration as run + margins *)
+                /\ check_conf saved = Some (run_rewrites cfg)           (* fed back: accepted, same configuration *)
+                /\ main m saved = Some saved.                           (* and saved again unchanged *)
+  (* PROVED below: the statement under (i) the decidable guard (scalars only in the completed
+     steps, no key twice -- true of Python dicts and of every built-in class, evaluated by the
+     harness on every case of every run; that update_conf / the schemas always establish it is
+     NOT proved), and (ii) run_rewrites cfg = cfg, i.e. no cost_volume_confidence step whose
+     `indicator` differs from the suffix of its name (every configuration without suffixed
+     confidence steps, and every configuration that was itself saved by a run).  MISSING for
+     the full statement: the lemma that replacing the value of `indicator` by another string
+     keeps a confidence step accepted (its schema is `str`), and (i).  The harness replays every
+     case, suffixed confidence steps included, on the real code. *)
+  Theorem C19_saved_cfg_replays_partial : forall user m saved,
+    main m user = Some saved -> guard user = true ->
+    (forall cfg, check_conf user = Some cfg -> run_rewrites cfg = cfg) ->
+    exists cfg, check_conf user = Some cfg /\ saved = set_key "margins" m cfg
+                /\ check_conf saved = Some cfg /\ main m saved = Some saved.
+  Proof.
+    exact (main_saved_replays gen_defs orc grid_ok images_ok bands_of classes interpolation_methods C19_classes_wf).
+  Qed.
+End Config.
+
+(* D8 (DESIGN section 4), regression witness.  The model of main BEFORE fix e0eac6a stored the
+   derived right interval [-max, -min] in the configuration it saved; the input check refuses
+   that file (right disp must be None when the left one is a pair).  The repaired main saves a
+   configuration that is accepted and saved again unchanged. *)
+Definition d8_user : dict :=
+  [("input", JDict [("left", JDict [("img", JStr "l.tif"); ("disp", JList [JInt (-2); JInt 2])]);
+                    ("right", JDict [("img", JStr "r.tif")])]);
+   ("pipeline", JDict [("matching_cost", JDict [("matching_cost_method", JStr "sad")]);
+                       ("cost_volume_confidence", JDict [("confidence_method", JStr "ambiguity")]);
+                       ("disparity", JDict [("disparity_method", JStr "wta"); ("invalid_disparity", JStr "NaN")]);
+                       ("validation", JDict [("validation_method", JStr "cross_checking_accurate")])])]%string.
+
+Definition d8_bands (_ : jv) : list jv := [JNull].
+Definition ok2 (_ _ : jv) : bool := true.
+Definition ok1 (_ : dict) : bool := true.
+
+Theorem C19_before_fix_refuted :
+  exists old, main_saved_before gen_defs open_orc ok2 ok1 d8_bands classes interpolation_methods (JDict []) d8_user = Some old
+              /\ full_check gen_defs open_orc ok2 ok1 d8_bands classes interpolation_methods old = None.
+Proof. eexists. split; vm_compute; reflexivity. Qed.
+
+(* Non-vacuity of the guard and of the replay theorem on the same witness (repaired main). *)
+Example C19_replay_example :
+  replay_guard gen_defs open_orc ok2 ok1 d8_bands classes interpolation_methods d8_user = true
+  /\ match main_saved gen_defs open_orc ok2 ok1 d8_bands classes interpolation_methods (JDict []) d8_user with
+     | Some saved => main_saved gen_defs open_orc ok2 ok1 d8_bands classes interpolation_methods (JDict []) saved = Some saved
+                     /\ List.length saved = 3%nat
+     | None => False
+     end.
+Proof. vm_compute. repeat split. Qed.
+
 Print Assumptions C19_plan_wf.
 Print Assumptions C19_files_iff_products.
 Print Assumptions C19_casts_exact.
 Print Assumptions C19_band_bookkeeping.
 Print Assumptions C19_right_files_iff_validation.
+Print Assumptions C19_classes_wf.
+Print Assumptions C19_input_section_replays.
+Print Assumptions C19_checked_cfg_fixpoint.
+Print Assumptions C19_saved_cfg_replays_partial.
+Print Assumptions C19_before_fix_refuted.
